@@ -215,3 +215,391 @@ def C03():
 
 
 ALL.update(C02=C02, C15=C15, C03=C03)
+
+
+def _cases_units():
+    return ["cases_off", "cases_on"] if C.tier() == "thorough" else ["cases_off"]
+
+
+def _ops_jobs(fn, nmax, lo=2, **kw):
+    return _jobs("r_reg_ops", fn, range(lo, nmax + 1), nmax=nmax, **kw)[:-1]  # no size-independent part
+
+
+def C04():
+    from . import r_reg, r_reg_ops
+    chk = Check("C04", "other",
+                "R-REG (framing of primitive operators): Dx<0..4>, X<0..3> and the identity applied through "
+                "transformSpline / operator* to splines of order 0..3 on every window of grids up to the size bound: "
+                "the result lives on the operand's support and coefficient p of interval I depends on exactly the "
+                "operand coefficients of the same interval that d^n/dx^n resp. x^n prescribes and (for x^n) on that "
+                "interval's two end points; exactly zero where n exceeds the degree. Falling-factorial and binomial "
+                "values are not decided.")
+    chk.trust(*REG_TRUST)
+    chk.assume(*REG_ASSUME)
+    nmax = 6 if C.tier() == "thorough" else 4
+    total = 0
+    for n in _cases_units():
+        u = F.load(n)
+        chk.units.append(n)
+        total += r_reg.run_jobs(chk, u, "R-REG.op", _ops_jobs("operator_suite", nmax,
+                                                              cases=sorted(r_reg_ops.PRIMITIVE)))
+    chk.note("regions_evaluated", total)
+    chk.note("grid_size_bound", nmax)
+    chk.exhaustive = True
+    chk.floor("R-REG.op", chk.rules["R-REG.op"]["instances"], 10, "operator cases")
+    return chk
+
+
+def C05():
+    from . import r_reg, r_reg_ops
+    chk = Check("C05", "other",
+                "R-REG (framing of operator expressions) + R-DIV (scalar discipline): 35 named expressions of the "
+                "operator algebra (drivers/cases.h: products, sums, differences, scalars on both sides, unary minus, "
+                "nested forms, spline factors with every relative placement of factor and operand support) evaluated "
+                "abstractly; every result coefficient must depend on exactly the inputs the spelled differential "
+                "expression prescribes; a spline factor acts as zero outside its own intervals. Signs, operator "
+                "order inside one dependence class and numeric values are not decided.")
+    chk.trust(*REG_TRUST)
+    chk.assume(*REG_ASSUME)
+    nmax = 5 if C.tier() == "thorough" else 4
+    total = 0
+    for n in _cases_units():
+        u = F.load(n)
+        chk.units.append(n)
+        total += r_reg.run_jobs(chk, u, "R-REG.op", _ops_jobs("operator_suite", nmax))
+    chk.note("regions_evaluated", total)
+    chk.note("grid_size_bound", nmax)
+    chk.exhaustive = True
+    chk.floor("R-REG.op", chk.rules["R-REG.op"]["instances"], 35, "operator cases")
+    return chk
+
+
+def C06():
+    from . import r_reg
+    chk = Check("C06", "other",
+                "R-REG (framing of bilinear forms): BilinearForm with identity / X / Dx / spline-factor operators "
+                "evaluated abstractly for all pairs of windows (identical, nested, overlapping, touching, disjoint, "
+                "interval-free; equal grids in distinct objects) and four order pairs: the value must be built from "
+                "exactly the even-power products of the two transformed pieces of every COMMON interval and that "
+                "interval's width, and be exactly zero when no interval is shared. The Horner kernel's numeric "
+                "result is not decided.")
+    chk.trust(*REG_TRUST)
+    chk.assume(*REG_ASSUME)
+    nmax = 5 if C.tier() == "thorough" else 4
+    total = 0
+    for n in _cases_units():
+        u = F.load(n)
+        chk.units.append(n)
+        total += r_reg.run_jobs(chk, u, "R-REG.bf", _ops_jobs("bilinear_suite", nmax))
+    chk.note("regions_evaluated", total)
+    chk.exhaustive = True
+    chk.floor("R-REG.bf", chk.rules["R-REG.bf"]["instances"], 5, "bilinear-form cases")
+    return chk
+
+
+def C07():
+    from . import r_reg
+    chk = Check("C07", "other",
+                "R-REG (framing of linear forms): LinearForm with identity / X / Dx / product / spline-factor operators "
+                "for every window and order 0..3: the value is built from exactly the even-power coefficients of the "
+                "transformed piece of every interval of the operand (operator told the absolute interval) and that "
+                "interval's width; exactly zero for an interval-free spline. Agreement with the bilinear form's "
+                "numeric value is not decided.")
+    chk.trust(*REG_TRUST)
+    chk.assume(*REG_ASSUME)
+    nmax = 6 if C.tier() == "thorough" else 4
+    total = 0
+    for n in _cases_units():
+        u = F.load(n)
+        chk.units.append(n)
+        total += r_reg.run_jobs(chk, u, "R-REG.lf", _ops_jobs("linear_suite", nmax))
+    chk.note("regions_evaluated", total)
+    chk.exhaustive = True
+    chk.floor("R-REG.lf", chk.rules["R-REG.lf"]["instances"], 5, "linear-form cases")
+    return chk
+
+
+def C17():
+    from . import r_reg
+    chk = Check("C17", "other",
+                "R-REG (framing of numerical quadrature): integrate<2>, integrate<5> for all window pairs and four "
+                "order pairs: the quadrature extends over exactly the common intervals, evaluates both splines' "
+                "pieces of the same absolute interval between that interval's end points, and is exactly zero if "
+                "there is none. Gauss-Legendre exactness and rounding are not decided (Boost's rule is modelled as "
+                "'value built from the integrand inside [a,b]').")
+    chk.trust(*REG_TRUST)
+    chk.assume(*REG_ASSUME)
+    nmax = 6 if C.tier() == "thorough" else 4
+    total = 0
+    for n in _cases_units():
+        u = F.load(n)
+        chk.units.append(n)
+        total += r_reg.run_jobs(chk, u, "R-REG.quad", _ops_jobs("quadrature_suite", nmax))
+    chk.note("regions_evaluated", total)
+    chk.exhaustive = True
+    chk.floor("R-REG.quad", chk.rules["R-REG.quad"]["instances"], 2, "quadrature cases")
+    return chk
+
+
+ALL.update(C04=C04, C05=C05, C06=C06, C07=C07, C17=C17)
+
+
+def _example_units():
+    names = F.unit_names(prefix="ex_") + [n for n in F.unit_names() if n.startswith("readme_")]
+    us = F.load_many(names)
+    return [us[n] for n in names]
+
+
+def C16():
+    from . import r_small
+    chk = Check("C16", "other",
+                "R-CFGI decides only the LAST sentence of C16 - computed values do not depend on whether the optional "
+                "self-checks are compiled in: the macro is consulted in one header only, its expansion is exactly a "
+                "const checkValidity() call whose call closure is effect-free, and every instantiated library "
+                "function has the same statement structure in both configurations once those calls are removed. "
+                "The 2^20-epsilon error bound needs a rounding-error analysis over run-time values and is NOT "
+                "decided (no sound floating-point analyser in this image).")
+    chk.trust("bsv-dump extraction (macro origin of statements from clang's source manager)",
+              "structural hash over kind, operator, type, resolved callee and constant of every statement")
+    chk.assume("both configurations are compiled with the same compiler flags otherwise; optimisation-level "
+               "independence of floating-point results is not decided")
+    us = F.load_many(["dbl_on", "dbl_off"])
+    chk.units = ["dbl_on", "dbl_off"]
+    nsame, nmacro = r_small.r_cfgi(chk, us["dbl_on"], us["dbl_off"])
+    chk.floor("R-CFGI.same", chk.rules["R-CFGI.same"]["instances"], 150, "function patterns compared")
+    chk.floor("R-CFGI.macro", chk.rules["R-CFGI.macro"]["instances"], 45, "self-check macro statements")
+    if C.tier() == "thorough":
+        us2 = F.load_many(["cases_on", "cases_off"])
+        r_small.r_cfgi(chk, us2["cases_on"], us2["cases_off"])
+        chk.units += ["cases_on", "cases_off"]
+    return chk
+
+
+def C20():
+    from . import r_small, r_grd
+    chk = Check("C20", "other",
+                "Decides one clause of 'run without undefined behaviour' for the shipped examples: R-EX (no erase / "
+                "dereference of a container's own past-the-end iterator in examples/ and readme/), R-OPT on the "
+                "example code, and the library-side rules on the instantiations the examples create (operator "
+                "expressions own their operands; spline factors guarded by R-GRD). The physics (boundary values, "
+                "scale invariance, eigenvalue shifts, n+1/2, -1/n^2) are run-time values and are NOT decided.")
+    chk.trust("bsv-dump extraction of examples/*.cpp and readme/generation with the flags of the CMake files")
+    units = _example_units()
+    chk.units = [u.name for u in units]
+    scope = lambda f: C.in_repo(f.decl["pfile"]) and not C.in_lib(f.decl["pfile"])
+    r_small.r_ex(chk, units, scope)
+    r_small.r_opt(chk, units, scope=lambda f: True)
+    # library rules on what the examples instantiate
+    chk.rule("R-GRD.a", "grid guard must-pass-through on the library instantiations created by the examples")
+    ents = r_grd.run(chk, units)
+    from . import r_own
+    r_own.expression_members(chk, units)
+    nfun = sum(1 for u in units for f in u.funcs if scope(f) and not f.dependent)
+    chk.note("example_functions_analysed", nfun)
+    if nfun < 15:
+        raise AnalysisBroken("only %d example functions parsed" % nfun)
+    return chk
+
+
+ALL.update(C16=C16, C20=C20)
+
+
+def _broad_jobs(nsmall=3, ops=True):
+    """A broad set of suites at small grid sizes (used where the claim is about every operation: C09, C10, C14)."""
+    lib, cases = [], []
+    lib += _jobs("r_reg_sup", "support_suite", range(2, nsmall + 2), nmax=nsmall + 1)
+    lib += _jobs("r_reg_sup", "grid_suite", range(2, nsmall + 2), maxlen=nsmall)
+    lib += _jobs("r_reg_spl", "eval_suite", range(2, nsmall + 2), nmax=nsmall + 1, orders=(0, 1, 3))
+    lib += _jobs("r_reg_spl", "validity_suite", range(2, nsmall + 2), nmax=nsmall + 1)
+    for pr in ((1, 1), (2, 1), (0, 2), (3, 0)):
+        lib += _jobs("r_reg_spl", "arithmetic_suite", range(3, nsmall + 2), nmax=nsmall + 1, order_pairs=(pr,))
+    lib += _jobs("r_reg_spl", "scalar_suite", range(2, nsmall + 2), nmax=nsmall + 1)
+    lib += _jobs("r_reg_spl", "lincomb_suite", range(3, nsmall + 1), nmax=nsmall)
+    lib += _jobs("r_reg_spl", "predicate_suite", range(2, nsmall + 1), nmax=nsmall)
+    lib += _jobs("r_reg_val", "generator_suite", range(0, 5), maxlen=4)[:-1]
+    lib += _jobs("r_reg_val", "interpolate_suite", range(2, nsmall + 1), nmax=nsmall)
+    if ops:
+        cases += _ops_jobs("operator_suite", nsmall + 1)
+        cases += _ops_jobs("bilinear_suite", nsmall)
+        cases += _ops_jobs("linear_suite", nsmall + 1)
+        cases += _ops_jobs("quadrature_suite", nsmall)
+    return lib, cases
+
+
+def C09():
+    from . import r_reg, r_small, r_own, r_inv
+    chk = Check("C09", "other",
+                "Named necessary conditions of memory safety, each decided for all inputs of its domain: (1) R-REG: "
+                "no abstract evaluation of any library operation on any window placement runs into an out-of-range "
+                "vector/array subscript, a read of uninitialised storage, a null / empty-optional dereference, an "
+                "invalid iterator operation or signed overflow (models in bsv/interp.py), for grids up to the size "
+                "bound and orders 0..3; (2) checked accessors and conversions throw / report not-contained for "
+                "every index of the index type incl. 2^64-1; (3) R-OPT; (4) R-OWN.field + R-LIFE (no reference "
+                "members, no reference into a dying temporary); (5) Grid validates its data pointer and cannot be "
+                "moved from. Not decided: UB inside Eigen/Boost, allocation failure, instantiations outside the "
+                "driver grid.")
+    chk.trust(*REG_TRUST)
+    chk.assume(*REG_ASSUME)
+    nsmall = 4 if C.tier() == "thorough" else 3
+    lib, cases = _broad_jobs(nsmall)
+    total = 0
+    for n in _reg_unit_names():
+        u = F.load(n)
+        chk.units.append(n)
+        total += r_reg.run_jobs(chk, u, "R-REG.ub", lib, view=r_reg.ub_view)
+    for n in _cases_units():
+        u = F.load(n)
+        chk.units.append(n)
+        total += r_reg.run_jobs(chk, u, "R-REG.ub", cases, view=r_reg.ub_view)
+    chk.note("regions_evaluated", total)
+    chk.exhaustive = True
+    units = _lib_units(["cases_off"])
+    r_small.r_opt(chk, units)
+    r_own.field_types(chk, units)
+    r_own.lifetimes(chk, units + _example_units())
+    chk.floor("R-REG.ub", chk.rules["R-REG.ub"]["instances"], 120, "(function, clause) obligations")
+    chk.floor("R-OPT", chk.rules["R-OPT"]["instances"], 8, "optional dereference sites")
+    return chk
+
+
+def C10():
+    from . import r_reg, r_own, r_inv
+    chk = Check("C10", "proof",
+                "Induction over histories. Base + step by R-REG: every constructor accepts exactly the states the "
+                "invariant allows (Grid: >=2 strictly increasing points; Support: (0,0) or start<end<=size; Spline: "
+                "#coefficient arrays = #intervals), and every operation evaluated abstractly on valid operands "
+                "(copies, moves, self-move, arithmetic, in-place forms, cross-order assignment, operator "
+                "application, linearCombination, generator, interpolation; failing calls included) leaves every "
+                "object it touched or produced valid; moved-from supports/splines are interval-free on the same "
+                "grid. Completeness of the step by R-INV: every write site of a member of the three classes lies "
+                "in a function the evaluator exercised, a defaulted whole-object transfer, or an element-value "
+                "write. R-OWN.commit: nothing may throw after the first write of an in-place operation.",
+                checker_cmd="bin/check C10")
+    chk.trust(*REG_TRUST)
+    chk.assume(REG_ASSUME[0], "a moved-from std::vector is empty (libstdc++); allocation failure and throwing scalar "
+               "copies are out of scope", "callers keep no mutable alias to a vector handed to "
+               "Grid(shared_ptr<const vector<T>>)")
+    nsmall = 4 if C.tier() == "thorough" else 3
+    lib, cases = _broad_jobs(nsmall)
+    total = 0
+    for n in _reg_unit_names():
+        u = F.load(n)
+        chk.units.append(n)
+        total += r_reg.run_jobs(chk, u, "R-REG.inv", lib)
+    for n in _cases_units():
+        u = F.load(n)
+        chk.units.append(n)
+        total += r_reg.run_jobs(chk, u, "R-REG.inv", cases)
+    chk.note("regions_evaluated", total)
+    chk.note("functions_evaluated_abstractly", len(chk.executed))
+    chk.exhaustive = True
+    units = _lib_units(["cases_off"])
+    nsites = r_inv.census(chk, units, chk.executed)
+    r_own.commit_last(chk, units)
+    chk.floor("R-INV", nsites, 15, "write sites of invariant-carrying members")
+    chk.floor("R-REG.inv", chk.rules["R-REG.inv"]["instances"], 120, "(function, clause) obligations")
+    return chk
+
+
+def C11():
+    from . import r_reg, r_small
+    chk = Check("C11", "proof",
+                "R-REG: every validating entry point evaluated abstractly over all regions of its arguments and "
+                "compared with the documented acceptance condition (both directions: invalid is refused with "
+                "BSplineException, valid is never refused): 4 Grid constructors over all sequences up to length 4 "
+                "of {a<b<c, unordered}; Support(grid,s,e) over all order types incl. 2^64-1; Spline(support, "
+                "coefficients) over all (window, count); BSplineGenerator(knots[,grid]) over all knot sequences up "
+                "to length 4-5 and four ways the grid can mismatch; generateBSplines<p> count check; "
+                "linearCombination count checks; interpolate size and boundary-derivative checks at both nodes "
+                "(incl. 0, order+1, 2^64-1). R-THR: every throw in the library is a BSplineException. Also the "
+                "default boundary table of interpolation (the static clause of C12).",
+                checker_cmd="bin/check C11")
+    chk.trust(*REG_TRUST)
+    chk.assume(REG_ASSUME[0], "the final row-count check of interpolate and solvability of the interpolation system "
+               "are arithmetic and not decided")
+    thorough = C.tier() == "thorough"
+    total = 0
+    for n in _reg_unit_names():
+        u = F.load(n)
+        chk.units.append(n)
+        jobs = _jobs("r_reg_sup", "grid_suite", [], maxlen=4 if thorough else 3, accessors=False)
+        jobs += _jobs("r_reg_sup", "support_suite", range(2, 6 if thorough else 5), nmax=5 if thorough else 4)
+        jobs += _jobs("r_reg_spl", "validity_suite", range(2, 6 if thorough else 5), nmax=5 if thorough else 4)
+        jobs += _jobs("r_reg_spl", "lincomb_suite", [3], nmax=3)
+        jobs += _jobs("r_reg_val", "generator_suite", range(0, 6 if thorough else 5), maxlen=5 if thorough else 4)[:-1]
+        jobs += _jobs("r_reg_val", "interpolate_suite", range(2, 5 if thorough else 4), nmax=4 if thorough else 3,
+                      orders=(1, 2, 3, 4) if thorough else (1, 2, 3))
+        total += r_reg.run_jobs(chk, u, "R-REG.val", jobs)
+    chk.note("regions_evaluated", total)
+    chk.exhaustive = True
+    r_small.r_thr(chk, _lib_units())
+    chk.floor("R-REG.val", chk.rules["R-REG.val"]["instances"], 45, "(function, clause) obligations")
+    chk.floor("R-THR", chk.rules["R-THR"]["instances"], 20, "throw expressions")
+    return chk
+
+
+def C14():
+    from . import r_reg, r_own, r_grd
+    chk = Check("C14", "other",
+                "Value semantics by construction of the types plus abstract evaluation. R-OWN: no mutable member, no "
+                "const-stripping cast, members are deep-copied values or shared_ptr<const>, the only non-const public "
+                "members are (compound) assignments, nothing hands out mutable access to internals, and no "
+                "possibly-throwing call is reachable after the first write of an in-place operation (commit-last); "
+                "R-GRD.b: no write precedes the grid guard. R-REG: in every evaluated operation (arithmetic, scalar "
+                "forms, linearCombination, operator application, forms, evaluation) the state of every operand is "
+                "identical before and after, and refused in-place operations leave the target unchanged.")
+    chk.trust(*REG_TRUST)
+    chk.assume("scalar operations do not throw (operator*= updates elements in place)",
+               "the caller keeps no mutable alias into a grid's vector")
+    units = _lib_units()
+    chk.units = [u.name for u in units]
+    r_own.const_correctness(chk, units)
+    r_own.field_types(chk, units)
+    r_own.interface_shape(chk, units)
+    r_own.commit_last(chk, units)
+    r_grd.run(chk, units)
+    nsmall = 4 if C.tier() == "thorough" else 3
+    lib, cases = _broad_jobs(nsmall)
+    total = 0
+    for n in _reg_unit_names():
+        total += r_reg.run_jobs(chk, F.load(n), "R-REG.unchanged", lib)
+    for n in _cases_units():
+        total += r_reg.run_jobs(chk, F.load(n), "R-REG.unchanged", cases)
+        chk.units.append(n)
+    chk.note("regions_evaluated", total)
+    chk.floor("R-OWN.iface", chk.rules["R-OWN.iface"]["instances"], 100, "public functions")
+    chk.floor("R-OWN.field", chk.rules["R-OWN.field"]["instances"], 15, "data members")
+    return chk
+
+
+def C18():
+    from . import r_own
+    chk = Check("C18", "other",
+                "Absence of shared mutable state and of thread-varying inputs in library code, for all schedules: "
+                "R-EFF.static (the only static-duration objects are const/constexpr; thread-safe initialisation not "
+                "disabled), R-OWN.mutable / R-OWN.cast (const operations cannot write), R-OWN.field (the only "
+                "cross-object sharing is shared_ptr<const vector<T>>), R-EFF.closure (instantiated library code "
+                "references nothing outside allow-listed namespaces and nothing on the deny-list of non-reentrant, "
+                "clock/thread/environment-dependent or global-stream entities). Hence concurrent const calls and "
+                "copies/destructions of objects sharing a grid cannot race and compute what a sequential run "
+                "computes.")
+    chk.trust("the C++ standard's guarantees for shared_ptr control blocks and concurrent const access to containers",
+              "scalar-type operations are pure", "Boost's Gauss tables are immutable after thread-safe initialisation")
+    names = ["dbl_on", "dbl_off", "cases_off", "arch_off"]
+    if C.tier() == "thorough":
+        names += [n for n in F.unit_names() if n.startswith(("ex_", "readme_"))]
+    else:
+        names += [n for n in F.unit_names() if n.startswith("ex_")][:2]
+    us = F.load_many(names)
+    units = [us[n] for n in names]
+    chk.units = names
+    r_own.statics(chk, units)
+    r_own.const_correctness(chk, units)
+    r_own.field_types(chk, units)
+    r_own.call_closure(chk, units)
+    chk.floor("R-EFF.static", chk.rules["R-EFF.static"]["instances"], 5, "static-duration variables")
+    chk.floor("R-OWN.mutable", chk.rules["R-OWN.mutable"]["instances"], 15, "data members")
+    return chk
+
+
+ALL.update(C09=C09, C10=C10, C11=C11, C14=C14, C18=C18)
